@@ -590,6 +590,10 @@ def judge_span(o: Outcome, case, name, text, rel, origin):
            f"the nesting model demands {cexp[cls]!r}")
     if cls == "par":
         why += par_why(doc, cexp, crel, text)
+    if has_ws(doc) and ws_why(doc, rel).startswith((" -- heading", " -- list")):
+        # a structure line with a white-space spelling stayed plain text: that, not the spanning construct, is the problem
+        o.violation(c, why + ws_why(doc, rel), cls=origin + ":ws:" + cls)
+        return False
     o.violation(c, why + span_why(doc, rel, case.get("mode")), cls=origin + ":span:" + cls)
     return False
 
